@@ -2674,12 +2674,17 @@ class sptensor:
         if isinstance(other, ttb.tensor):
             # Find where their zeros interact
             otherzerosubs, _ = (other == 0).find()
-            zzerosubs = otherzerosubs[(self[otherzerosubs] == 0).transpose()[0], :]
+            # (extract always returns one row per subscript, also for a single subscript)
+            zzerosubs = np.empty(shape=(0, other.ndims), dtype=int)
+            if otherzerosubs.size > 0:
+                zzerosubs = otherzerosubs[
+                    (self.extract(otherzerosubs) == 0).transpose()[0], :
+                ]
 
             # Find where their nonzeros intersect
             znzsubs = np.empty(shape=(0, other.ndims), dtype=int)
             if self.nnz > 0:
-                othervals = other[self.subs]
+                othervals = np.atleast_1d(other[self.subs])
                 znzsubs = self.subs[(othervals[:, None] == self.vals).transpose()[0], :]
 
             return sptensor(
